@@ -166,7 +166,7 @@ def h_groups(I, hi, part):
     """Group accessors: insertion / index order, lookup by index and by member value."""
     c, gt, pt, model = _mk_group(I, hi)
     if part == "order":
-        idx = I.int("index", -1, 2)
+        idx = I.int("index", -4, 3)  # "where to insert" (list.insert semantics, also for negative positions); the default -1 appends
         nv = I.fstr("inserted", 1)
         c.add_group(gt, {1: nv, 2: "ins"}, index=idx)
         if idx == -1:
@@ -365,7 +365,7 @@ def cells(tier):
     out.append(Cell("tag-spelling", h_tag_spelling, dict(bad_tags="every 1-char printable string, alone or after the digit 1", enum=[f.name for f in FTAGS],
                                                          values="str / int (symbolic) / float / enum"),
                     goals=["accepted", "refused", "enum", "typed-value"]))
-    out.append(Cell("groups/order", lambda I: h_groups(I, hi, "order"), dict(tags=tb, items="1..2 + insertion at a symbolic index in [-1,2]", values=vb),
+    out.append(Cell("groups/order", lambda I: h_groups(I, hi, "order"), dict(tags=tb, items="1..2 + insertion at a symbolic index in [-4,3]", values=vb),
                     goals=["inserted"], budget_s=2400))
     out.append(Cell("groups/lookup", lambda I: h_groups(I, hi, "lookup"), dict(tags=tb, items="1..2", by_index="symbolic in [0,4]", by_value="symbolic", values=vb),
                     goals=["index-out-of-range", "by-tag"], budget_s=2400))
